@@ -682,6 +682,10 @@ func vfC17Start(t *testing.T, s *vfutil.Session, c *vfStCase, src string) {
 			return
 		}
 	}
+	// 2b. error REPLIES instead of crashes: SetRunId retries by itself (RetryLinearJitter, virtual time)
+	if !vfC17SetRunIdErrors(t, s, c, log[:n1], len(log), label, ids, p0, ge, rep) {
+		return
+	}
 	// 3. the replay goes on under the new id (what sendCmdsBatch writes), in the database of the position
 	d, _ := strconv.Atoi(strings.Split(p0, "@")[1])
 	tg.Seed(d, "hset", c.local, c.newId+"_runid", c.newId, c.newId+"_version", config.Version)
@@ -701,6 +705,142 @@ func vfC17Start(t *testing.T, s *vfutil.Session, c *vfStCase, src string) {
 	}
 	tg.CloseAll()
 	s.Distinct(fmt.Sprintf("st|%v|%d|%v|%d", c.local == c.key, len(c.dbs), c.noMtime, c.dbs[0]))
+}
+
+// One request of SetRunId(new id) — any of them, reads included — is answered with an error (the connection
+// stays usable; OOM / LOADING / READONLY style): the real SetRunId goes on as the code does (its own
+// RetryLinearJitter, 4 s apart, under virtual time), then the real next start must read a position not
+// smaller, in the same database (and, when SetRunId reported success, also once the old id is gone).
+// Then the persistent variant: the target answers every request of SetRunId with an error until SetRunId gives
+// up; the SAME process calls SetRunId again (RedisInput.Run loops with the same output), the replay goes on and
+// stores a larger offset under the id SetRunId was asked for, the process stops; a NEW process starts, and at
+// every prefix of ITS SetRunId the next start must still read that larger offset.
+func vfC17SetRunIdErrors(t *testing.T, s *vfutil.Session, c *vfStCase, base []vfdoubles.LogEntry, nEnd int, label string,
+	ids []string, p0 string, ge func(a, b string) bool, rep func(map[string]interface{}) map[string]interface{}) bool {
+	n1 := len(base)
+	const msg = "LOADING Redis is loading the dataset in memory"
+	newOut := func(tg *vfdoubles.Target, runId string) *RedisOutput {
+		ro := NewRedisOutput(RedisOutputConfig{InputName: "vf", CheckpointName: c.local, RunId: runId, EnableResumeFromBreakPoint: true, Redis: checkpoint.VfRedisCfg()})
+		ro.newRedisConn = func(ctx context.Context) (client.Redis, error) { return checkpoint.VfConn(tg), nil }
+		return ro
+	}
+	other := "eeeeeeeeeeeeeeeeeeeeeeeeeeeeeeeeeeeeeeee"
+	single := func() bool {
+		for j := n1; j < nEnd; j++ {
+			fa := map[int]string{j: msg}
+			var logF []vfdoubles.LogEntry
+			var err error
+			synctest.Test(t, func(t *testing.T) {
+				tf := vfdoubles.Replay(base, 0)
+				tf.FailAt[j] = msg
+				err = newOut(tf, label).SetRunId(context.Background(), c.newId)
+				tf.CloseAll()
+				logF = tf.LogCopy()
+			})
+			var issued []string
+			for i := n1; i < len(logF); i++ {
+				if l, ok := checkpoint.VfRenderWrite(logF[i]); ok && i != j {
+					issued = append(issued, l)
+				}
+			}
+			after := vfdoubles.ReplayFaults(logF, 0, false, fa)
+			pk, _ := vfC17RealStart(after, c.local, ids)
+			after.CloseAll()
+			s.Count("start_error_reply_points")
+			ex := map[string]interface{}{"failed_request": j - n1 + 1, "request": logF[j].String(), "setrunid_err": fmt.Sprint(err), "before": p0}
+			if !ge(pk, p0) {
+				ex["after"] = pk
+				s.Violate("setrunid-error-reply-loses-position", fmt.Sprintf("position %s before SetRunId(new id); its request #%d (%s) got an error reply, SetRunId went on by itself (returned %v; writes after the failure: %s); the next start (ids [new, old]) reads %s",
+					p0, j-n1+1, logF[j].String(), err, strings.Join(issued, " ; "), pk), rep(ex))
+				return false
+			}
+			if err == nil {
+				after2 := vfdoubles.ReplayFaults(logF, 0, false, fa)
+				pk2, _ := vfC17RealStart(after2, c.local, []string{c.newId, other})
+				after2.CloseAll()
+				if !ge(pk2, p0) {
+					ex["after"] = pk2
+					s.Violate("setrunid-error-reply-loses-position", fmt.Sprintf("position %s before SetRunId(new id); its request #%d (%s) got an error reply, SetRunId went on by itself and reported success (writes after the failure: %s); once the old id is gone the next start (ids [new, other]) reads %s",
+						p0, j-n1+1, logF[j].String(), strings.Join(issued, " ; "), pk2), rep(ex))
+					return false
+				}
+			}
+		}
+		return true
+	}
+	persistent := func() bool {
+		// the persistent variant
+		d, _ := strconv.Atoi(strings.Split(p0, "@")[1])
+		want := fmt.Sprintf("%d@%d", c.top+2000, d)
+		var logP []vfdoubles.LogEntry
+		var err1, err2 error
+		nFailEnd := 0
+		synctest.Test(t, func(t *testing.T) {
+			tf := vfdoubles.Replay(base, 0)
+			tf.FailFrom, tf.FailFromMsg = n1, msg
+			ro := newOut(tf, label)
+			err1 = ro.SetRunId(context.Background(), c.newId)
+			nFailEnd = tf.LogLen()
+			tf.FailFrom = -1
+			err2 = ro.SetRunId(context.Background(), c.newId) // the next run() of the same process
+			if err2 == nil {
+				// the session goes on: what sendCmdsBatch writes, under the id of the stream
+				tf.Seed(d, "hset", c.local, c.newId+"_runid", c.newId, c.newId+"_version", config.Version)
+				tf.Seed(d, "hset", c.local, c.newId+"_offset", strconv.FormatInt(c.top+2000, 10))
+			}
+			tf.CloseAll()
+			logP = tf.LogCopy()
+		})
+		s.Count("start_persistent_error_cases")
+		if err1 == nil || err2 != nil {
+			s.Count("start_persistent_error_skipped")
+			return true
+		}
+		fa := map[int]string{}
+		for i := n1; i < nFailEnd; i++ {
+			fa[i] = msg
+		}
+		stopped := vfdoubles.ReplayFaults(logP, 0, false, fa)
+		seedLog := stopped.LogCopy()
+		_ = seedLog
+		// the new process: start, then SetRunId(new) — every prefix of it a crash point
+		stateLog := func() []vfdoubles.LogEntry { return vfdoubles.ReplayFaults(logP, 0, false, fa).LogCopy() }
+		_ = stateLog
+		p1, label1 := vfC17RealStart(stopped, c.local, ids)
+		if !ge(p1, want) {
+			s.Violate("position-after-failed-relabel-unreadable", fmt.Sprintf("SetRunId(new id) failed 3 times, the same process called it again (returned nil), the replay stored %s; a new process (ids [new, old]) reads %s", want, p1), rep(nil))
+			stopped.CloseAll()
+			return false
+		}
+		n2 := stopped.LogLen()
+		if err := newOut(stopped, label1).SetRunId(context.Background(), c.newId); err != nil {
+			stopped.CloseAll()
+			s.Violate("setrunid-fails", err.Error(), rep(nil))
+			return false
+		}
+		stopped.CloseAll()
+		log2 := stopped.LogCopy()
+		for i := n2; i < len(log2); i++ {
+			l, ok := checkpoint.VfRenderWrite(log2[i])
+			if !ok {
+				continue
+			}
+			// (the faults were transient: `stopped` has none, its own log replays plainly)
+			tk := vfdoubles.Replay(log2[:i+1], 0)
+			pk, _ := vfC17RealStart(tk, c.local, ids)
+			tk.CloseAll()
+			s.Count("start_persistent_error_crash_points")
+			if !ge(pk, want) {
+				s.Violate("relabel-after-failed-relabel-loses-position", fmt.Sprintf("SetRunId(new id) failed 3 times (every request answered %q), the same process called SetRunId again: nil; the replay went on and stored %s; a NEW process reads %s at its start, then its SetRunId(new id), stopped after request #%d (%s): the next start reads %s",
+					msg, want, p1, i-n2+1, l, pk), rep(map[string]interface{}{"crash_after_request": i - n2 + 1, "before": want, "after": pk}))
+				return false
+			}
+		}
+		return true
+	}
+	okP := persistent()
+	okS := single()
+	return okP && okS
 }
 
 func vfC17StartGen(r *vfutil.Rand) *vfStCase {
